@@ -53,7 +53,7 @@ ANCHORS = [
 
 def floors(tier):
     return {
-        "comparisons": {"cov=2Hinv": 40, "errors=sqrt-diag": 40, "cor=normalised": 40, "profile-point": 100, "asymmetric-rise": 30, "contour-point-rise": 30, "error-band": 40, "adapter.cov=2*errordef*Hinv": 8, "cov=2Hinv.after-fix": 15, "errors=sqrt-diag.after-fix": 15},
+        "comparisons": {"cov=2Hinv": 40, "errors=sqrt-diag": 40, "cor=normalised": 40, "profile-point": 100, "asymmetric-rise": 30, "contour-point-rise": 30, "error-band": 40, "adapter.cov=2*errordef*Hinv": 8, "cov=2Hinv.after-fix": 15, "profile.subtract_min": 20, "errors=sqrt-diag.after-fix": 15},
         "ops": ["do_fit", "profile", "asymmetric", "contour", "error_band"],
         "reach": ["%s:%s" % a for a in ANCHORS],
         "strata": ["iminuit", "scipy", "fixed", "xy", "hist", "int-x-band", "outside-range-band", "errordef-0.5", "errordef-1.0", "limited-inactive"],
@@ -370,6 +370,27 @@ def run_fit_case(ctx, case):
                 ctx.worst["profile_dev_" + minimizer] = max(ctx.worst.get("profile_dev_" + minimizer, 0.0), float(abs(yv - r) / (1.0 + rise)))
             if sum(ctx._wit_per_key.values()) != nv:
                 return nontrivial
+            if i == free_idx[0]:
+                # the same profile relative to the minimum, on a coarse grid with an even number of points (the grid misses the optimum):
+                # "subtract_min" means the cost at the minimum, so every point is the absolute profile minus the fit's cost
+                ctx.op("profile.subtract_min")
+                try:
+                    with time_limit(60):
+                        p_abs, _ = fit._fitter.profile(names[i], sigma=2.0, size=4, subtract_min=False)
+                        p_sub, _ = fit._fitter.profile(names[i], sigma=2.0, size=4, subtract_min=True)
+                    ya, ysub = np.array(p_abs[1], dtype=float), np.array(p_sub[1], dtype=float)
+                    cmin = float(fit.cost_function_value)
+                    ctx.check("profile.subtract_min", bool(np.all(np.abs((ya - cmin) - ysub) <= ptol * (1.0 + np.abs(ya - cmin)))), lambda: dict(d, parameter=names[i], x=p_abs[0], absolute_minus_cost_at_minimum=ya - cmin, subtract_min_profile=ysub))
+                except OpTimeout:
+                    ctx.discard("profile-timeout")
+                except Exception as e:
+                    if numerical_failure(e):
+                        ctx.discard("profile-failed-numerically")
+                    else:
+                        ctx.violation(None, "profile.no-exception", dict(d, parameter=names[i], traceback=fmt_exc()))
+                        return nontrivial
+                if sum(ctx._wit_per_key.values()) != nv:
+                    return nontrivial
     # ---- (c) asymmetric errors
     if case["extras"]["asymmetric"]:
         ctx.op("asymmetric")
